@@ -76,6 +76,7 @@ type tcase = {
   mutable keys : byte list list;   (* reversed while reading *)
   mutable vals : byte list list;   (* reversed while reading *)
   mutable hasvals : bool;
+  mutable nobig : bool;
   mutable built : trie res option;
 }
 
@@ -100,7 +101,7 @@ let print_views buf (t : tree) =
 
 let run_trie_file (inp : in_channel) (out : out_channel) =
   let c = { cid = ""; ropt = { r_dedup = None; r_inner = None; r_leaf = None; r_complete = None };
-            keys = []; vals = []; hasvals = false; built = None } in
+            keys = []; vals = []; hasvals = false; nobig = false; built = None } in
   let buf = Buffer.create 65536 in
   let pr fmt = Printf.bprintf buf fmt in
   let flush_case () = output_string out (Buffer.contents buf) in
@@ -111,7 +112,7 @@ let run_trie_file (inp : in_channel) (out : out_channel) =
       let o = normalize c.ropt in
       let keys = List.rev c.keys in
       let vals = if c.hasvals then Some (List.rev c.vals) else None in
-      let b = build o keys vals in
+      let b = build_gen (not c.nobig) o keys vals in
       c.built <- Some b;
       (match b with
        | Err e -> pr "B %s\n" (err_str e)
@@ -128,8 +129,9 @@ let run_trie_file (inp : in_channel) (out : out_channel) =
      while true do
        let line = input_line inp in
        match split_ws line with
-       | "T" :: cid :: d :: i :: l :: cc :: hv :: _ ->
+       | "T" :: cid :: d :: i :: l :: cc :: hv :: rest ->
          c.cid <- cid;
+         c.nobig <- List.mem "nobig" rest;
          c.ropt <- { r_dedup = optbool d; r_inner = optbool i; r_leaf = optbool l; r_complete = optbool cc };
          c.keys <- []; c.vals <- []; c.hasvals <- (hv = "1"); c.built <- None;
          Buffer.clear buf;
